@@ -302,7 +302,14 @@ class TimeStamp(TdmsType):
             dtype = np.dtype([('second_fractions', '<u8'), ('seconds', '<i8')])
         else:
             dtype = np.dtype([('seconds', '>i8'), ('second_fractions', '>u8')])
-        return TimestampArray(byte_array.view(dtype).reshape(-1))
+        array = byte_array.view(dtype).reshape(-1)
+        if endianness != "<":
+            # Convert to the native layout so timestamp data has the same dtype however it is read
+            native_array = np.empty(len(array), dtype=np.dtype([('second_fractions', '<u8'), ('seconds', '<i8')]))
+            native_array['seconds'] = array['seconds']
+            native_array['second_fractions'] = array['second_fractions']
+            array = native_array
+        return TimestampArray(array)
 
 
 @tds_data_type(0x08000c, np.complex64)
